@@ -4,12 +4,62 @@ import Crem.Model.Engine
 # C16 — concurrent engine requests behave as if executed one at a time  (partial)
 
 Theorems about the micro-step model of request handling under one mutex (`Crem/Model/Locking.lean`):
-any number of client threads, any programs, any handlers (any decomposition of a handler into micro-steps on the
-shared state), every schedule.  The tie to the code is structural — `rest.MuxImpl.ServeHTTP` takes the lock
-before dispatch and releases it by `defer`, no handler starts a goroutine (`engine-facts`, extracted from the
-source on every run) — and behavioural (`engine-conc`: real concurrent clients against the real server, every
-outcome compared with the engine's own serial executions, also under the race detector).
-Partial because the Go memory model is trusted, not modelled (see the model file).
+any number of client threads, any programs (fixed lists of requests), any handlers given as a list of
+micro-steps on the shared state, every schedule.
+
+What is compared with what.  A handler is GIVEN as its list of micro-steps; `Handler.atomic` runs those SAME
+micro-steps without interruption.  The theorems compare the interleaved execution (threads take micro-steps
+in any order the schedule says, a thread waiting for the taken lock does not move) with the uninterrupted
+execution of the same micro-steps, request after request, in the order the lock was acquired.  What is proved
+is that the lock makes the interleaving irrelevant — not that a handler is correct (that is C14/C15, brought
+in through `Implements`), and not anything about how Go code decomposes into micro-steps.
+
+Contents.
+  * `mutual_exclusion`, `mutex_serialises`, `at_rest_serial`, `log_grows`: the serial order is the acquisition log;
+    `quiescent_schedule_exists`: the hypothesis of `mutex_serialises` can always be met.
+  * `real_time`, `real_time_order` (with `posOf_spec`, `posOf_is_kth`, `posOf_tags`): the serial order respects real time — a
+    request whose answer a client had already received when another request had not yet been sent precedes it.
+  * `responses_from_spec`, `concurrent_is_spec_run`: if every handler does, run alone, what the engine spec
+    `Crem.Engine.step` does for its request, then whatever the schedule there is an interleaving of the clients'
+    request lists on which `Crem.Engine.run` gives the final state and, client by client, every response received.
+  * `engineHandler`, `engineHandler_implements`, `concurrent_engine_requests_serialise`: the same for a concrete
+    two-micro-step (read, then write back) handler of every engine request, stated without handlers;
+    `concurrent_engine_requests_real_time`: and the interleaving respects real time.
+  * `Example`: non-vacuity (quiescent schedules exist; proved for ALL threads with the frame lemma) and the
+    lost update that the same micro-steps produce without the lock.
+
+The tie to the code is structural — `rest.MuxImpl.ServeHTTP` takes the lock before dispatch and releases it
+by `defer`, no handler starts a goroutine (`engine-facts`, extracted from the source on every run) — and
+behavioural (`engine-conc`: real concurrent clients against the real server, every outcome compared with the
+engine's own serial executions, also under the race detector).
+
+LIMITATIONS (why "partial").
+  1. Mutual exclusion holds BY CONSTRUCTION of `move`.  Only a thread in phase `running` touches `shared`, and
+     `running` is entered only by taking the free lock: an access to the shared state that is not under the
+     lock cannot be expressed in this model.  `mutual_exclusion` is therefore a sanity property of the
+     transition function, not evidence about the code.  The property's clause "never read or written
+     unsynchronised" rests on the structural facts extracted from the Go source by `engine-facts` and on the
+     race detector run of `engine-conc`, NOT on a Lean theorem.
+  2. The Go memory model is trusted, not modelled (see the model file); so is `sync.Mutex`.
+  3. Clients are NON-ADAPTIVE: `prog t` is fixed up front, a client's next request does not depend on the answers
+     it has received.  Only the clause `Inv.order` of the invariant (`Proofs/Locking.lean`) mentions `prog`; the
+     clauses behind `mutual_exclusion`, `at_rest_serial`, `log_grows` and the state / response parts of
+     `mutex_serialises` do not, so one expects those to carry over to adaptive clients (a thread state
+     `next : List R → Option (Handler S L R)` in place of `todo`), whereas the program-order statements
+     (`real_time`, (a) of `concurrent_is_spec_run`, `concurrent_engine_requests_serialise`) would have to be
+     restated for the requests actually sent.  Adaptive clients are NOT covered by any theorem here.
+  4. Lock placement.  In the Go code the request body is read and the response is written INSIDE the critical
+     section (`ServeHTTP` holds the lock around the whole handler); in the model `pre` (the request as read)
+     is fixed before the lock is requested and delivery of `resp` comes after the release.  Harmless for
+     safety: neither touches shared state; reading the body inside the lock only removes interleavings; a
+     response flushed inside the lock can reach the client before the release — an order of events the model
+     does not have, but the request was logged at acquisition, earlier still, which is all `real_time_order`
+     uses.  It matters for liveness (one stalled upload blocks every client), which is outside the property.
+     The model has no panic path either (`defer Unlock` after a handler that panics half way).
+  5. Quiescence is a hypothesis of the end-to-end statements.  It is satisfiable for every finite set of clients
+     (`quiescent_schedule_exists`; concrete interleaved schedules in `Example`), but nothing here says that the
+     schedules the runtime produces reach it (no fairness, no liveness).
+
 Every `theorem` in this file is audited by `./check C16` (`#print axioms`).
 -/
 namespace Crem.Locking
@@ -17,7 +67,8 @@ namespace Crem.Locking
 variable {S L R : Type}
 
 /-- Mutual exclusion: under every schedule, whoever is inside its critical section holds the lock — so two
-different threads are never inside at once. -/
+different threads are never inside at once.  (True by construction of `move`, see limitation 1 in the header:
+this checks the transition function, it is not evidence that the code takes the lock.) -/
 theorem mutual_exclusion (s0 : S) (prog : Nat → List (Handler S L R)) (sched : List Nat)
     (t₁ t₂ : Nat) (h₁ h₂ : Handler S L R) (l₁ l₂ : L) (r₁ r₂ : List (L × S → L × S))
     (p₁ : ((exec (initial s0 prog) sched).threads t₁).phase = .running h₁ l₁ r₁)
@@ -28,7 +79,8 @@ theorem mutual_exclusion (s0 : S) (prog : Nat → List (Handler S L R)) (sched :
   rw [a] at b; cases b; rfl
 
 /-- **Every interleaving is equivalent to a serial order of whole requests.**  Under every schedule, once
-everything sent has been answered, the acquisition log is a serial order of all the requests such that
+everything sent has been answered, the acquisition log is a serial order of all the requests — `serial`,
+`respsOf` run each logged handler's micro-steps without interruption (`Handler.atomic`) — such that
   * the final shared state is the one that serial order produces,
   * every client has received exactly the responses that serial order produces for its requests, in order,
   * and each client's requests appear in the log in the order the client sent them. -/
@@ -76,8 +128,9 @@ theorem at_rest_serial (s0 : S) (prog : Nat → List (Handler S L R)) (sched : L
   simp only [completed, hfree] at this
   exact ⟨_, this.symm⟩
 
-/-- The log only ever grows at its end: what has acquired the lock before stays before.  (So the serial order
-respects real time: a request answered before another one was even sent precedes it.) -/
+/-- The log only ever grows at its end, from ANY configuration: what has acquired the lock before stays before.
+By itself this says nothing about which requests are in the log at a given moment, hence nothing about real
+time; `real_time` and `real_time_order` below combine it with the invariant to get the real-time order. -/
 theorem log_grows (c : Config S L R) (sched : List Nat) : ∃ more, (exec c sched).log = c.log ++ more := by
   induction sched generalizing c with
   | nil => exact ⟨[], by simp [exec]⟩
@@ -100,6 +153,92 @@ theorem log_grows (c : Config S L R) (sched : List Nat) : ∃ more, (exec c sche
     refine ⟨m ++ more, ?_⟩
     simp only [exec, List.foldl_cons] at hm ⊢
     rw [hm, hm', List.append_assoc]
+
+/-- The hypothesis `Quiescent` of the end-to-end statements is satisfiable for EVERY finite set of clients, every
+program and every handler: some schedule lets everybody finish (serve the clients one after the other; nothing
+is claimed about the schedules the runtime produces — no fairness, no liveness). -/
+theorem quiescent_schedule_exists (s0 : S) (prog : Nat → List (Handler S L R)) (n : Nat)
+    (hempty : ∀ t, n ≤ t → prog t = []) : ∃ sched, Quiescent (exec (initial s0 prog) sched) :=
+  exists_quiescent_schedule s0 prog n hempty
+
+/-! ## real-time order
+
+`posOf log t k` (model file) is the position in the serial order `log` of the `k`-th request of client `t`. -/
+
+/-- what `posOf` means: `posOf xs t k = some p` iff position `p` of `xs` carries the tag `t` and exactly `k`
+entries before it carry that tag -/
+theorem posOf_spec {α : Type} (xs : List (Nat × α)) (t k p : Nat) :
+    posOf xs t k = some p ↔ (∃ a, xs[p]? = some (t, a)) ∧ (proj (xs.take p) t).length = k :=
+  posOf_eq_some_iff xs t k p
+
+/-- … so the entry at that position is the `k`-th entry of thread `t` (with `mutex_serialises`, at quiescence:
+`log[posOf log t k] = (t, (prog t)[k])`), and there is such a position as soon as thread `t` has more than
+`k` entries -/
+theorem posOf_is_kth {α : Type} (xs : List (Nat × α)) (t k : Nat) :
+    (∀ p, posOf xs t k = some p → ∃ a, xs[p]? = some (t, a) ∧ (proj xs t)[k]? = some a) ∧
+    (k < (proj xs t).length → ∃ p, posOf xs t k = some p) :=
+  ⟨fun p h => posOf_entry xs t k p h, posOf_isSome xs t k⟩
+
+/-- `posOf` looks at the thread tags only: two lists with the same tags (the acquisition log of handlers and the
+interleaving `order` of requests of `concurrent_is_spec_run`) give the same positions -/
+theorem posOf_tags {α β : Type} (xs : List (Nat × α)) (ys : List (Nat × β))
+    (h : xs.map (·.1) = ys.map (·.1)) (t k : Nat) : posOf xs t k = posOf ys t k :=
+  posOf_congr_tags xs ys h t k
+
+/-- **Real time, the bookkeeping.**  Stop the run `s₁ ++ s₂` after `s₁`: `c₁` is the configuration at that
+moment, `c₂` the one at the end.  Then
+  * the final log is the log at `c₁` followed by what was acquired later (`more`);
+  * every response a client has RECEIVED at `c₁` is the serial response of a request already in the log at
+    `c₁`, its `i`-th response that of its `i`-th logged request (`out` is a prefix of the serial responses of
+    the log at `c₁`) — and it still is one in the final serial order;
+  * the requests of client `t` in the log at `c₁` are exactly the first ones of `prog t`: those it is waiting
+    with for the lock (`pending`, at most one) and those it has NOT YET SENT (`todo`) are not in the log at
+    `c₁`; they are logged — if at all — inside `more`. -/
+theorem real_time (s0 : S) (prog : Nat → List (Handler S L R)) (s₁ s₂ : List Nat) (c₁ c₂ : Config S L R)
+    (h₁ : c₁ = exec (initial s0 prog) s₁) (h₂ : c₂ = exec (initial s0 prog) (s₁ ++ s₂)) :
+    ∃ more, c₂.log = c₁.log ++ more ∧
+      (∀ t, (c₁.threads t).out <+: respsOf s0 c₁.log t) ∧
+      (∀ t, (c₁.threads t).out <+: respsOf s0 c₂.log t) ∧
+      (∀ t, requestsOf c₁.log t ++ pending (c₁.threads t).phase ++ (c₁.threads t).todo = prog t) ∧
+      (∀ t, requestsOf c₂.log t = requestsOf c₁.log t ++ requestsOf more t) := by
+  have hinv : Inv s0 prog c₁ := h₁ ▸ inv_exec s0 prog _ s₁ (inv_initial s0 prog)
+  obtain ⟨more, hmore⟩ := log_grows c₁ s₂
+  have hlog : c₂.log = c₁.log ++ more := by rw [h₂, exec_append, ← h₁]; exact hmore
+  have hpre : ∀ t, (c₁.threads t).out <+: respsOf s0 c₁.log t := fun t =>
+    List.IsPrefix.trans ⟨_, hinv.outs t⟩ (respsOf_completed_prefix s0 c₁ t)
+  refine ⟨more, hlog, hpre, ?_, hinv.order, ?_⟩
+  · intro t
+    rw [hlog, respsOf_append]
+    exact List.IsPrefix.trans (hpre t) (List.prefix_append _ _)
+  · intro t; rw [hlog, requestsOf_append]
+
+/-- **The serial order respects real time.**  If at some moment of the run (after `s₁`) client `t` has already
+RECEIVED the answer to its `i`-th request (`i < out.length`) and client `t'` has NOT YET SENT its `j`-th request
+(it is still in `todo`: `todo` is the tail of `prog t'`, so that says `(prog t').length - todo.length ≤ j`), then
+in the final serial order the `i`-th request of `t` comes before the `j`-th request of `t'`, wherever the
+latter is logged (`p'`; at quiescence every `j < (prog t').length` is logged, `mutex_serialises`) — more
+precisely the former was already in the log at that moment and the latter was not.  Requests are counted from 0. -/
+theorem real_time_order (s0 : S) (prog : Nat → List (Handler S L R)) (s₁ s₂ : List Nat) (c₁ c₂ : Config S L R)
+    (h₁ : c₁ = exec (initial s0 prog) s₁) (h₂ : c₂ = exec (initial s0 prog) (s₁ ++ s₂))
+    (t t' i j p' : Nat)
+    (hreceived : i < (c₁.threads t).out.length)
+    (hnotsent : (prog t').length - (c₁.threads t').todo.length ≤ j)
+    (hp' : posOf c₂.log t' j = some p') :
+    ∃ p, posOf c₂.log t i = some p ∧ p < p' ∧ p < c₁.log.length ∧ c₁.log.length ≤ p' := by
+  obtain ⟨more, hlog, hpre, _, hord, _⟩ := real_time s0 prog s₁ s₂ c₁ c₂ h₁ h₂
+  have hi : i < (proj c₁.log t).length := by
+    have := (hpre t).length_le
+    rw [respsOf_length, requestsOf_eq_proj] at this
+    omega
+  obtain ⟨p, hp⟩ := posOf_isSome c₁.log t i hi
+  have hplt := posOf_lt_length _ _ _ _ hp
+  have hj : (proj c₁.log t').length ≤ j := by
+    have := congrArg List.length (hord t')
+    simp only [List.length_append, requestsOf_eq_proj] at this
+    omega
+  rw [hlog] at hp' ⊢
+  have hge := posOf_append_ge c₁.log more t' j p' hj hp'
+  exact ⟨p, posOf_append_left _ _ _ _ _ hp, by omega, hplt, hge⟩
 
 /-! ## the responses are the engine spec's -/
 
@@ -130,6 +269,114 @@ theorem responses_from_spec (q : Quirks) (W : World) (reqOf : Handler State L Re
     rw [← hx s0]
     exact ⟨ih'.1, by rw [ih'.2]⟩
 
+/-- **The composed statement.**  Client programs whose handlers each implement, run alone, their request
+`reqOf h` of the engine spec; any schedule; everything sent has been answered.  Then there is an interleaving
+`order` of the clients' request lists (the acquisition log, each handler replaced by its request) such that
+  (a) its projection on every client `t` is exactly the request list of `t` — program order, nothing lost,
+      nothing added;
+  (b) the final shared state is the engine spec's state after `order`, run one request at a time;
+  (c) every client `t` has received exactly the spec's responses to its own requests in that serial run, in
+      order: the responses `(Crem.Engine.run … order).1`, tagged with the clients of `order`, projected on `t`.
+  (d) clause by clause `order` follows the acquisition log (same thread tags in the same places), so positions in
+      `order` are positions in the log (`posOf_tags`) and `real_time_order` applies to it: the interleaving
+      also respects real time. -/
+theorem concurrent_is_spec_run (q : Quirks) (W : World) (reqOf : Handler State L Response → Request)
+    (s0 : State) (prog : Nat → List (Handler State L Response))
+    (himp : ∀ t, ∀ h ∈ prog t, Implements q W h (reqOf h))
+    (sched : List Nat) (hq : Quiescent (exec (initial s0 prog) sched)) :
+    ∃ order : List (Nat × Request),
+      (∀ t, proj order t = (prog t).map reqOf) ∧
+      (exec (initial s0 prog) sched).shared = Crem.Engine.exec q W s0 (order.map (·.2)) ∧
+      (∀ t, ((exec (initial s0 prog) sched).threads t).out =
+        proj ((order.map (·.1)).zip (Crem.Engine.run q W s0 (order.map (·.2))).1) t) ∧
+      order.map (·.1) = (exec (initial s0 prog) sched).log.map (·.1) := by
+  obtain ⟨hshared, houts, hreqs⟩ := mutex_serialises s0 prog sched hq
+  generalize exec (initial s0 prog) sched = c at *
+  have hlogimp : ∀ x ∈ c.log, Implements q W x.2 (reqOf x.2) := by
+    intro x hx
+    have := mem_proj_of_mem c.log x hx
+    rw [← requestsOf_eq_proj, hreqs] at this
+    exact himp x.1 x.2 this
+  obtain ⟨hstate, hresps⟩ := responses_from_spec q W reqOf c.log hlogimp s0
+  have hsnd : (c.log.map (fun x => (x.1, reqOf x.2))).map (·.2) = c.log.map (fun x => reqOf x.2) := by
+    simp [List.map_map, Function.comp_def]
+  have hfst : (c.log.map (fun x => (x.1, reqOf x.2))).map (·.1) = c.log.map (·.1) := by
+    simp [List.map_map, Function.comp_def]
+  refine ⟨c.log.map (fun x => (x.1, reqOf x.2)), ?_, ?_, ?_, hfst⟩
+  · intro t; rw [proj_map_snd, ← requestsOf_eq_proj, hreqs]
+  · rw [hshared, hstate, hsnd]
+  · intro t
+    rw [houts t, respsOf_eq_proj, hsnd, hfst, ← hresps, zip_tags_serialResps]
+
+/-- A handler for the engine request `r` with two micro-steps, as a read-modify-write handler has them: the
+first READS the shared engine state and computes the spec's `step` for the request into the thread's local
+state (the local state also carries the request, as read by net/http before the lock: `pre`); the second WRITES
+the computed state back.  Two such handlers interleaved without the lock lose an update (`Example.engineLost`). -/
+def engineHandler (q : Quirks) (W : World) (r : Request) :
+    Handler State (Request × Option (Response × State)) Response :=
+  { pre := (r, none)
+    steps := [ fun (l, s) => ((l.1, some (step q W s l.1)), s),
+               fun (l, s) => (l, match l.2 with | some (_, s') => s' | none => s) ]
+    resp := fun l => match l.2 with | some (resp, _) => resp | none => err 500 }
+
+/-- run without interruption, the two micro-steps do what the spec does for the request -/
+theorem engineHandler_implements (q : Quirks) (W : World) (r : Request) :
+    Implements q W (engineHandler q W r) r := fun _ => rfl
+
+/-- **Concurrent engine requests serialise** (no handlers in the statement).  Clients `t = 0, 1, …` send the
+request lists `reqs t`, each request handled by the two-micro-step `engineHandler` under the one lock; any
+schedule; everything sent has been answered.  Then there is an interleaving `order` of the `reqs t` (projection
+on `t` is `reqs t`) such that the final engine state is `Crem.Engine.exec` of it and every client has received
+exactly the responses `Crem.Engine.run` gives to its requests in it, in order; `order` follows the acquisition
+log (last clause), so it respects real time (`real_time_order`, `posOf_tags`). -/
+theorem concurrent_engine_requests_serialise (q : Quirks) (W : World) (s0 : State) (reqs : Nat → List Request)
+    (sched : List Nat)
+    (hq : Quiescent (exec (initial s0 (fun t => (reqs t).map (engineHandler q W))) sched)) :
+    ∃ order : List (Nat × Request),
+      (∀ t, proj order t = reqs t) ∧
+      (exec (initial s0 (fun t => (reqs t).map (engineHandler q W))) sched).shared =
+        Crem.Engine.exec q W s0 (order.map (·.2)) ∧
+      (∀ t, ((exec (initial s0 (fun t => (reqs t).map (engineHandler q W))) sched).threads t).out =
+        proj ((order.map (·.1)).zip (Crem.Engine.run q W s0 (order.map (·.2))).1) t) ∧
+      order.map (·.1) = (exec (initial s0 (fun t => (reqs t).map (engineHandler q W))) sched).log.map (·.1) := by
+  obtain ⟨order, ha, hb, hc, hd⟩ := concurrent_is_spec_run q W (fun h => h.pre.1) s0
+    (fun t => (reqs t).map (engineHandler q W))
+    (by
+      intro t h hh
+      obtain ⟨r, _, rfl⟩ := List.mem_map.1 hh
+      exact engineHandler_implements q W r)
+    sched hq
+  refine ⟨order, ?_, hb, hc, hd⟩
+  intro t
+  rw [ha t, List.map_map]
+  exact List.map_id'' (fun _ => rfl) _
+
+/-- **… in an order that respects real time.**  The same, for a run `s₁ ++ s₂` observed also after `s₁`: the
+interleaving `order` can be chosen such that moreover, whenever at that moment client `t` had already RECEIVED
+the answer to its `i`-th request and client `t'` had NOT YET SENT its `j`-th request (still in `todo`), the
+`i`-th request of `t` stands before the `j`-th request of `t'` in `order`. -/
+theorem concurrent_engine_requests_real_time (q : Quirks) (W : World) (s0 : State) (reqs : Nat → List Request)
+    (s₁ s₂ : List Nat)
+    (hq : Quiescent (exec (initial s0 (fun t => (reqs t).map (engineHandler q W))) (s₁ ++ s₂))) :
+    ∃ order : List (Nat × Request),
+      (∀ t, proj order t = reqs t) ∧
+      (exec (initial s0 (fun t => (reqs t).map (engineHandler q W))) (s₁ ++ s₂)).shared =
+        Crem.Engine.exec q W s0 (order.map (·.2)) ∧
+      (∀ t, ((exec (initial s0 (fun t => (reqs t).map (engineHandler q W))) (s₁ ++ s₂)).threads t).out =
+        proj ((order.map (·.1)).zip (Crem.Engine.run q W s0 (order.map (·.2))).1) t) ∧
+      (∀ t t' i j,
+        i < ((exec (initial s0 (fun t => (reqs t).map (engineHandler q W))) s₁).threads t).out.length →
+        (reqs t').length - ((exec (initial s0 (fun t => (reqs t).map (engineHandler q W))) s₁).threads t').todo.length ≤ j →
+        j < (reqs t').length →
+        ∃ p p', posOf order t i = some p ∧ posOf order t' j = some p' ∧ p < p') := by
+  obtain ⟨order, ha, hb, hc, hd⟩ := concurrent_engine_requests_serialise q W s0 reqs (s₁ ++ s₂) hq
+  refine ⟨order, ha, hb, hc, ?_⟩
+  intro t t' i j hi hj hjlt
+  obtain ⟨p', hp'⟩ := posOf_isSome order t' j (by rw [ha t']; exact hjlt)
+  obtain ⟨p, hp, hlt, _, _⟩ := real_time_order s0 (fun t => (reqs t).map (engineHandler q W)) s₁ s₂ _ _ rfl rfl
+    t t' i j p' hi (by simpa using hj) (by rw [← posOf_congr_tags _ _ hd]; exact hp')
+  exact ⟨p, p', by rw [posOf_congr_tags _ _ hd]; exact hp, hp', hlt⟩
+
 end Spec
 
 /-! ## Non-vacuity and sanity examples (tests, labelled as such) -/
@@ -153,13 +400,58 @@ example : (exec (initial 0 prog) sched).shared = 3 := by decide
 example : ((exec (initial 0 prog) sched).threads 0).out = [1, 3] ∧ ((exec (initial 0 prog) sched).threads 1).out = [2] := by
   decide
 example : (exec (initial 0 prog) sched).log.map (·.1) = [0, 1, 0] := by decide
-/-- the hypothesis of `mutex_serialises` is satisfiable: this schedule lets everybody finish -/
-example : ∀ t < 3, ((exec (initial 0 prog) sched).threads t).todo.length = 0 := by decide
+/-- the hypothesis of `mutex_serialises` is satisfiable: this schedule lets everybody finish — `Quiescent` for
+ALL threads: the two with a program by evaluation, every other one by the frame lemma (a client with an empty
+program never moves, `exec_initial_empty` through `quiescent_of_bounded`) -/
+theorem sched_quiescent : Quiescent (exec (initial 0 prog) sched) := by
+  apply quiescent_of_bounded 0 prog sched 2
+  · intro t ht
+    match t, ht with
+    | t + 2, _ => rfl
+  · intro t ht
+    have : t = 0 ∨ t = 1 := by omega
+    rcases this with rfl | rfl
+    · exact ⟨List.eq_nil_of_length_eq_zero (by decide), True.intro⟩
+    · exact ⟨List.eq_nil_of_length_eq_zero (by decide), True.intro⟩
+
+/-- `quiescent_schedule_exists` applies (clients 2, 3, … have no program) -/
+example : ∃ sched, Quiescent (exec (initial 0 prog) sched) :=
+  quiescent_schedule_exists 0 prog 2 (fun t ht => match t, ht with | _ + 2, _ => rfl)
+
+/-- … so `mutex_serialises` applies to it -/
+example : (exec (initial 0 prog) sched).shared = serial 0 (exec (initial 0 prog) sched).log :=
+  (mutex_serialises 0 prog sched sched_quiescent).1
+
+/-- real time: let client 0 run alone until it has its first answer (six micro-steps: pick up, acquire, two
+steps, release, deliver); client 1 has not sent anything yet; then let everybody finish -/
+def s₁ : List Nat := List.replicate 6 0
+def s₂ : List Nat := List.replicate 6 1 ++ List.replicate 6 0
+
+/-- the hypotheses of `real_time_order` are satisfiable (client 0 has received answer 0, client 1 has not yet
+sent its request 0, which ends up at position 1 of the final log), and its conclusion is the expected one:
+request 0 of client 0 sits at a position before 1 -/
+example : ∃ p, posOf (exec (initial 0 prog) (s₁ ++ s₂)).log 0 0 = some p ∧ p < 1 ∧
+    p < (exec (initial 0 prog) s₁).log.length ∧ (exec (initial 0 prog) s₁).log.length ≤ 1 :=
+  real_time_order 0 prog s₁ s₂ _ _ rfl rfl 0 1 0 0 1 (by decide) (by decide) (by decide)
+
+example : ((exec (initial 0 prog) s₁).threads 0).out = [1] ∧ ((exec (initial 0 prog) s₁).threads 1).todo.length = 1 ∧
+    (exec (initial 0 prog) (s₁ ++ s₂)).log.map (·.1) = [0, 1, 0] ∧
+    Quiescent (exec (initial 0 prog) (s₁ ++ s₂)) := by
+  refine ⟨by decide, by decide, by decide, ?_⟩
+  apply quiescent_of_bounded 0 prog _ 2
+  · intro t ht
+    match t, ht with
+    | t + 2, _ => rfl
+  · intro t ht
+    have : t = 0 ∨ t = 1 := by omega
+    rcases this with rfl | rfl
+    · exact ⟨List.eq_nil_of_length_eq_zero (by decide), True.intro⟩
+    · exact ⟨List.eq_nil_of_length_eq_zero (by decide), True.intro⟩
 
 /-- the same handlers without the lock (a thread enters its critical section whatever the lock says, as the code
 does before D14 is repaired): an update is lost and two clients are told the same value — no serial order of
 three increments answers 1, 1, 2 -/
-def moveUnlocked (c : Config Nat Nat Nat) (t : Nat) : Config Nat Nat Nat :=
+def moveUnlocked {S L R : Type} (c : Config S L R) (t : Nat) : Config S L R :=
   match (c.threads t).phase with
   | .arrived h => { c with threads := upd c.threads t { c.threads t with phase := .running h h.pre h.steps } }
   | .running h l [] => { c with threads := upd c.threads t { c.threads t with phase := .responding h l } }
@@ -168,6 +460,99 @@ def moveUnlocked (c : Config Nat Nat Nat) (t : Nat) : Config Nat Nat Nat :=
 def lost : Config Nat Nat Nat := sched.foldl moveUnlocked (initial 0 prog)
 
 example : lost.shared = 2 ∧ (lost.threads 0).out = [1, 2] ∧ (lost.threads 1).out = [1] := by decide
+
+/-! ### engine requests -/
+
+section Engine
+open Crem.Engine
+
+def W : World := { valid := fun _ set => set.count true ≤ 2 }
+
+def u : Universe :=
+  { key := "k", acts := [(1, "GullyRestoration"), (2, "RiverBankRestoration")], pus := [1, 2], asIs := [] }
+
+def text : Bytes := [0x5B, 0x53, 0x5D]
+
+def postScen : Request :=
+  { method := .post, path := "/api/v1/scenario", ctype := tomlMime, text := text, facts := .scen (.ok "S" u) }
+
+def putSub (path : String) (entries : List SubEntry) : Request :=
+  { method := .put, path := path, ctype := jsonMime, text := [], facts := .sub (some entries) }
+
+/-- client 0 posts a scenario and then reads the model; client 1 reads the scenario text -/
+def reqs : Nat → List Request
+  | 0 => [postScen, getReq "/api/v1/model/actions/active"]
+  | 1 => [getReq "/api/v1/scenario"]
+  | _ => []
+
+def engineProg : Nat → List (Handler State (Request × Option (Response × State)) Response) :=
+  fun t => (reqs t).map (engineHandler Quirks.spec W)
+
+/-- the hypothesis of `concurrent_engine_requests_serialise` is satisfiable (same schedule as above: the two
+clients alternate micro-step by micro-step, then everybody finishes) -/
+theorem engine_quiescent : Quiescent (exec (initial State.init engineProg) sched) := by
+  apply quiescent_of_bounded State.init engineProg sched 2
+  · intro t ht
+    match t, ht with
+    | t + 2, _ => rfl
+  · intro t ht
+    have : t = 0 ∨ t = 1 := by omega
+    rcases this with rfl | rfl
+    · exact ⟨List.eq_nil_of_length_eq_zero (by decide), True.intro⟩
+    · exact ⟨List.eq_nil_of_length_eq_zero (by decide), True.intro⟩
+
+example : ∃ order : List (Nat × Request),
+    (∀ t, proj order t = reqs t) ∧
+    (exec (initial State.init engineProg) sched).shared = Crem.Engine.exec Quirks.spec W State.init (order.map (·.2)) ∧
+    (∀ t, ((exec (initial State.init engineProg) sched).threads t).out =
+      proj ((order.map (·.1)).zip (Crem.Engine.run Quirks.spec W State.init (order.map (·.2))).1) t) ∧
+    order.map (·.1) = (exec (initial State.init engineProg) sched).log.map (·.1) :=
+  concurrent_engine_requests_serialise Quirks.spec W State.init reqs sched engine_quiescent
+
+/-- the real-time form: client 0 alone until it has the answer to its POST (six micro-steps), then everybody; its
+POST stands before client 1's read in the interleaving -/
+example : ∃ order : List (Nat × Request), (∀ t, proj order t = reqs t) ∧
+    ∃ p p', posOf order 0 0 = some p ∧ posOf order 1 0 = some p' ∧ p < p' := by
+  have hq : Quiescent (exec (initial State.init engineProg) (s₁ ++ sched)) := by
+    apply quiescent_of_bounded State.init engineProg _ 2
+    · intro t ht
+      match t, ht with
+      | t + 2, _ => rfl
+    · intro t ht
+      have : t = 0 ∨ t = 1 := by omega
+      rcases this with rfl | rfl
+      · exact ⟨List.eq_nil_of_length_eq_zero (by decide), True.intro⟩
+      · exact ⟨List.eq_nil_of_length_eq_zero (by decide), True.intro⟩
+  obtain ⟨order, ha, _, _, hrt⟩ := concurrent_engine_requests_real_time Quirks.spec W State.init reqs s₁ sched hq
+  exact ⟨order, ha, hrt 0 1 0 0 (by decide) (by decide) (by decide)⟩
+
+/-- what actually happened under that schedule: client 0 acquired first, client 1's read of the scenario came
+second (and saw the posted text), client 0's read of the active actions third -/
+example : (exec (initial State.init engineProg) sched).log.map (·.1) = [0, 1, 0] := by decide
+example : ((exec (initial State.init engineProg) sched).threads 1).out = [ok (.text .toml text false)] := by decide
+example : ((exec (initial State.init engineProg) sched).threads 0).out =
+    [ok .success, ok (.active u [false, false])] := by decide
+
+/-- the same two micro-steps WITHOUT the lock lose an update: on a loaded scenario two clients each switch on
+one action of a different planning unit; both read the state before either writes back; both are told 200; the
+final state has only one of the two actions — no serial order of the two requests gives that -/
+def loaded : State := Crem.Engine.exec Quirks.spec W State.init [postScen]
+
+def subProg : Nat → List (Handler State (Request × Option (Response × State)) Response)
+  | 0 => [engineHandler Quirks.spec W (putSub "/api/v1/model/subcatchment/1" [⟨"GullyRestoration", .active⟩])]
+  | 1 => [engineHandler Quirks.spec W (putSub "/api/v1/model/subcatchment/2" [⟨"RiverBankRestoration", .active⟩])]
+  | _ => []
+
+def engineLost : Config State (Request × Option (Response × State)) Response :=
+  sched.foldl moveUnlocked (initial loaded subProg)
+
+example : (engineLost.threads 0).out = [ok .success] ∧ (engineLost.threads 1).out = [ok .success] ∧
+    engineLost.shared.live.map (·.active) = some [false, true] := by decide
+
+/-- with the lock both updates are there -/
+example : (exec (initial loaded subProg) sched).shared.live.map (·.active) = some [true, true] := by decide
+
+end Engine
 
 end Example
 
